@@ -1,7 +1,7 @@
 package main
 
 // Drives the REAL flow-mode HAR collector processor (streams/processors/har-collector) end to end:
-// NewProcessor(parameters) → Execute(response stream) → the HAR record written to the file
+// NewProcessor(parameters) → Execute(response API stream built by the production constructors) → the HAR record written to the file
 // exporter; the obfuscated request body / response content are read back from that record.
 // This is the only exported route to apiStreamObfuscator.obfuscateBody / filterBodyExclusions.
 
@@ -11,10 +11,12 @@ import (
 	"os"
 	"path/filepath"
 	"sync"
+	"time"
 
 	harcollector "lunar/engine/streams/processors/har-collector"
+	lunarMessages "lunar/engine/messages"
+	lunar_context "lunar/engine/streams/lunar-context"
 	public_types "lunar/engine/streams/public-types"
-	test_utils "lunar/engine/streams/test-utils"
 	streamtypes "lunar/engine/streams/types"
 	context_manager "lunar/toolkit-core/context-manager"
 )
@@ -90,8 +92,23 @@ func harTxnWire(exclusions []string, reqBody, respBody string, reqHeaders, respH
 	if err != nil {
 		return "", "", fmt.Errorf("NewProcessor: %w", err)
 	}
-	st := test_utils.NewMockAPIStreamFull(public_types.StreamTypeResponse, "POST", "https://example.com/v1/things",
-		reqHeaders, respHeaders, reqBody, respBody, 200)
+	// The API stream is built the production way (routing/messages_handler.go): the request stream is created
+	// from the SPOE message by NewRequestAPIStream (NewRequest -> DecodeBody undoes the content encoding while
+	// the content-encoding header stays) and stored; the response stream is created by NewResponseAPIStream
+	// over the same shared state and loads the stored request when the collector asks for it.
+	now := time.Date(2024, 1, 2, 3, 4, 5, 0, time.UTC)
+	const host, path = "example.com", "/v1/things"
+	shared := lunar_context.NewMemoryState[[]byte]()
+	reqStream := streamtypes.NewRequestAPIStream(lunarMessages.OnRequest{
+		ID: "verif-txn", SequenceID: "verif-txn", Method: "POST", Scheme: "https", URL: host + path, Path: path,
+		Headers: reqHeaders, RawBody: []byte(reqBody), Body: reqBody, Time: now,
+	}, shared)
+	reqStream.StoreRequest()
+	st := streamtypes.NewResponseAPIStream(lunarMessages.OnResponse{
+		ID: "verif-txn", SequenceID: "verif-txn", Method: "POST", URL: host + path, Status: 200,
+		Headers: respHeaders, RawBody: []byte(respBody), Body: respBody, Time: now.Add(time.Second),
+	}, shared)
+	defer st.DiscardRequest()
 	harCap.mu.Lock()
 	harCap.last = nil
 	harCap.mu.Unlock()
